@@ -818,15 +818,43 @@ theorem proof_expiry_le_every_component (now : Int) (maxTTL : Nat) (cut : Option
       have h3 := hmem _ (hin (Int.ofNat s.orig) (by simp))
       refine ⟨by omega, by simpa using h2, by simpa using h3⟩
 
+/-- what one zone's evaluation rests on: the evaluator's own `ok` verdict over
+unexpired NSEC RRsets, or over unexpired NSEC3 RRsets. -/
+theorem evalZone_live (now : Int) (H : SdnsVerif.Model.Nsec3.HashFn) (z : ZoneState) (q : Name) (t : Nat) (rc : Rcode)
+    (h : evalZone now H z q t = some rc) :
+    (∃ p, evaluateAggressiveNSEC q t 1 z.zone ((z.entries.filter fun e => now < e.expires).map (·.nsec)) = .ok (rc, p)) ∨
+    (∃ p, SdnsVerif.Model.Nsec3.evaluateAggressiveNSEC3 H q t 1 z.zone
+        ((z.entries3.filter fun e => now < e.expires).map (·.rr)) = .ok (rc, p)) := by
+  unfold evalZone at h
+  simp only at h
+  split at h
+  · rename_i rc' hv
+    simp only [Option.some.injEq] at h
+    subst h
+    split at hv
+    · cases hv
+    · split at hv
+      · rename_i rc'' p he
+        simp only [Option.some.injEq] at hv
+        subst hv
+        exact Or.inl ⟨p, he⟩
+      · cases hv
+  · split at h
+    · cases h
+    · split at h
+      · rename_i rc'' p he
+        simp only [Option.some.injEq] at h
+        subst h
+        exact Or.inr ⟨p, he⟩
+      · cases h
+
 /-- a lookup that synthesises from the proof cache found the zone's SOA entry
-and every RRset it evaluated still unexpired (entries at or past their
-expiry are invisible to the evaluator). -/
-theorem lookupProof_uses_live_only (st : State) (q : Name) (t : Nat) (rc : Rcode)
-    (h : lookupProof st q t = some rc) :
-    ∃ z ∈ st.zones, nameInZone q z.zone = true ∧ st.now < z.soaExpires ∧
-      ∃ p, evaluateAggressiveNSEC q t 1 z.zone
-        ((z.entries.filter fun e => st.now < e.expires).map (·.nsec)) = .ok (rc, p) := by
-  unfold lookupProof at h
+unexpired and evaluated unexpired RRsets only (entries at or past their
+expiry are invisible to the evaluators). -/
+theorem lookupProof_uses_live_only (st : State) (H : SdnsVerif.Model.Nsec3.HashFn) (q : Name) (t : Nat) (rc : Rcode)
+    (h : lookupProofH st H q t = some rc) :
+    ∃ z ∈ st.zones, nameInZone q z.zone = true ∧ st.now < z.soaExpires ∧ evalZone st.now H z q t = some rc := by
+  unfold lookupProofH at h
   simp only at h
   generalize hl : ((st.zones.filter fun z => nameInZone q z.zone).mergeSort fun a b => a.zone.length ≥ b.zone.length) = l at h
   have hsub : ∀ z ∈ l, z ∈ st.zones ∧ nameInZone q z.zone = true := by
@@ -836,16 +864,16 @@ theorem lookupProof_uses_live_only (st : State) (q : Name) (t : Nat) (rc : Rcode
     simpa [List.mem_filter] using this
   clear hl
   induction l with
-  | nil => simp [lookupProof.go] at h
+  | nil => simp [lookupProofH.go] at h
   | cons z rest ih =>
-    unfold lookupProof.go at h
+    unfold lookupProofH.go at h
     split at h
     · rename_i hlive
       split at h
-      · rename_i rc' p hev
+      · rename_i rc' hev
         simp only [Option.some.injEq] at h
         subst h
-        exact ⟨z, (hsub z (List.mem_cons_self ..)).1, (hsub z (List.mem_cons_self ..)).2, hlive, p, hev⟩
+        exact ⟨z, (hsub z (List.mem_cons_self ..)).1, (hsub z (List.mem_cons_self ..)).2, hlive, hev⟩
       · exact ih h (fun y hy => hsub y (List.mem_cons_of_mem _ hy))
     · exact ih h (fun y hy => hsub y (List.mem_cons_of_mem _ hy))
 
